@@ -57,6 +57,14 @@ fn gen_bytes(r: &mut Rng, corpus: &Corpus, enc: &str) -> Vec<u8> {
                 let p = r.below(b.len());
                 b.truncate(p);
             }
+            // escape sequences / shift codes / multi-byte leads of the stateful and the multi-byte codecs, whole or cut
+            // after any of their bytes, at the end of the input (where raw_finish() has to account for them)
+            if r.chance(1, 3) {
+                let tails: [&[u8]; 22] = [b"\x1b", b"\x1b$", b"\x1b$(", b"\x1b$B", b"\x1b$@", b"\x1b(", b"\x1b(B", b"\x1b(J", b"\x1b(I", b"\x1b$(D", b"\x1b$A",
+                    b"~", b"~{", b"~}", b"~{!", b"~\n", b"\x8f", b"\x8f\xa1", b"\x8e", b"\x81\x30", b"\x81\x30\x81", b"\x0e"];
+                b.extend_from_slice(tails[r.below(tails.len())]);
+                if r.chance(1, 3) { b.extend_from_slice(b"ab"); }
+            }
             b
         }
         3 => {
@@ -118,8 +126,22 @@ pub fn run(seed: u64, n: usize, driver: &str, out: &str, exhaustive: bool) -> se
             Some(c) => c,
             None => continue,
         };
-        for _ in 0..(n / 40).max(8) {
-            let b = gen_bytes(&mut rng, &corpus, e);
+        // every escape / shift / lead-byte tail, whole or cut, behind a short text -- for EVERY encoding (cheap, exhaustive)
+        let tails: [&[u8]; 24] = [b"\x1b", b"\x1b$", b"\x1b$(", b"\x1b$B", b"\x1b$@", b"\x1b(", b"\x1b(B", b"\x1b(J", b"\x1b(I", b"\x1b$(D", b"\x1b$A", b"\x1b$)C",
+            b"~", b"~{", b"~}", b"~{!", b"~\n", b"\x8f", b"\x8f\xa1", b"\x8e", b"\x81\x30", b"\x81\x30\x81", b"\x0e", b"\x0f"];
+        let mut directed: Vec<Vec<u8>> = vec![];
+        for t in tails.iter() {
+            for head in [&b""[..], &b"abc"[..]] {
+                let mut b = head.to_vec();
+                b.extend_from_slice(t);
+                directed.push(b.clone());
+                b.extend_from_slice(b"z");
+                directed.push(b);
+            }
+        }
+        let random_n = (n / 40).max(8);
+        for k in 0..random_n + directed.len() {
+            let b = if k < random_n { gen_bytes(&mut rng, &corpus, e) } else { directed[k - random_n].clone() };
             for (trap, name) in [(DecoderTrap::Strict, "strict"), (DecoderTrap::Ignore, "ignore"), (DecoderTrap::Replace, "replace")] {
                 evals += 1;
                 let h = decode(&b, e, trap, false, false);
